@@ -69,27 +69,31 @@ __CPROVER_assigns()
 """
 
 
+NUMNIBBLES_LOOP_CONTRACT = True   # False when the counting loop has another shape: jobs then unwind it (it runs at most 8 times)
+
+
 def numNibbles(manifest, with_contract=True):
+    """the whole body, verbatim up to type spellings.  The loop contract is spliced onto the counting loop when it has the
+    shape `while (<v> >= 16 ...) {` with a counter `int <n> = 1;`; any other loop shape is left without a contract
+    and the jobs unwind it with unwinding assertions (the loop is bounded by the operand width), which is as complete."""
+    global NUMNIBBLES_LOOP_CONTRACT
     asm = Source("hexasm.hpp", manifest)
     b, _, _ = asm.block_after(r"static int numNibbles\(int value\) \{", "numNibbles")
-    # the loop: `while (<var> >= 16) {` -- variable name captured so a rename is followed
     m = re.search(r"while \(((\w+) >= 16[^{;]*)\) \{", b)
-    if not m:
-        raise ExtractionError("numNibbles: loop `while (<v> >= 16 ...) {` not found")
-    cond, var = m.group(1), m.group(2)
     cnt = re.search(r"\bint (\w+) = 1;", b)
-    if not cnt:
-        raise ExtractionError("numNibbles: counter declaration `int <n> = 1;` not found")
-    n = cnt.group(1)
-    loopc = ("while (%s)\n"
-             "  __CPROVER_assigns(%s, %s)\n"
-             "  __CPROVER_loop_invariant(%s >= 1 && %s <= 8 && %s > 0 && %s == (__CPROVER_loop_entry(%s) >> (4 * (%s - 1))) && (%s == 8 ==> %s < 16))\n"
-             "  __CPROVER_decreases(%s)\n  {") % (cond, var, n, n, n, var, var, var, n, n, var, var)
-    rules = [(r"std::abs\(", "abs(", 0), (r"static_cast<unsigned>\(", "(unsigned)(", 0)]
-    if with_contract:
+    rules = [(r"std::abs\(", "abs(", 0), (r"static_cast<unsigned>\(", "(unsigned)(", 0), (r"static_cast<int>\(", "(int)(", 0), (r"static_cast<uint32_t>\(", "(uint32_t)(", 0)]
+    NUMNIBBLES_LOOP_CONTRACT = bool(m and cnt and len(re.findall(r"\b(?:while|for)\b", b)) == 1)
+    if with_contract and NUMNIBBLES_LOOP_CONTRACT:
+        cond, var = m.group(1), m.group(2)
+        n = cnt.group(1)
+        loopc = ("while (%s)\n"
+                 "  __CPROVER_assigns(%s, %s)\n"
+                 "  __CPROVER_loop_invariant(%s >= 1 && %s <= 8 && %s > 0 && %s == (__CPROVER_loop_entry(%s) >> (4 * (%s - 1))) && (%s == 8 ==> %s < 16))\n"
+                 "  __CPROVER_decreases(%s)\n  {") % (cond, var, n, n, n, var, var, var, n, n, var, var)
         rules.append((r"while \(\w+ >= 16[^{;]*\) \{", loopc.replace("\\", "\\\\"), 1, 1))
     b = rewrite(b, rules, "numNibbles", manifest)
     leftover_check(b, "numNibbles")
+    manifest.append({"unit": "numNibbles", "loop_contract_spliced": NUMNIBBLES_LOOP_CONTRACT})
     return "static int numNibbles(int value)" + (NUMNIBBLES_CONTRACT if with_contract else "\n") + b + "\n"
 
 
